@@ -261,7 +261,7 @@ impl Monitor for C03 {
         vec![("histories", tier.pick(80_000, 1_600_000)), ("long", tier.pick(200, 2000))]
     }
     fn rule(&self) -> &'static str {
-        "case = one optimizer instance (kind x {decay, momentum/dampening, centred} flags enumerated by the case index; lr log-uniform in [1e-4,1], betas/alpha/momentum from valid grids, eps in [1e-10,1e-3]) owning 2..10 parameter slots laid out over 1..3 layers x 1..3 filters x {weight,bias} with ranks 1..3; three slots carry the same numbers as vector / matrix / 3-D tensor (rank probe); every slot has its own gradient family (normal, constant, sparse, sign-flipping, tiny 1e-12..1e-6, large 1e3..1e6, mixture) and step-number sequence (constant 1, constant k, +1 per step, jumping; k in 2..9 or, in every sixth case, 100 / 1000 / 100000); slots are updated in a random interleaving for 1..400 steps (long: 2000). After EVERY update the slot's values are compared with the documented equations evaluated per element in f64 (tolerance 1e-4 x distance travelled + 1e-7 + 8 x drift of the same equations evaluated in f32), must be finite, and the three rank-probe slots must agree. Distinct = distinct (optimizer configuration, layout) descriptors; sentinel zeros for hyper-parameters are not generated."
+        "case = one optimizer instance (kind x {decay, momentum/dampening, centred} flags enumerated by the case index; lr log-uniform in [1e-4,1], betas/alpha/momentum from valid grids, eps in [1e-10,1e-3]) owning 2..10 parameter slots laid out over 1..3 layers x 1..3 filters x {weight,bias} with ranks 1..3; three slots carry the same numbers as vector / matrix / 3-D tensor (rank probe; 4..12 elements, in every fourth block of cases 33..129 rows x 1..3 columns); every slot has its own gradient family (normal, constant, sparse, sign-flipping, tiny 1e-12..1e-6, large 1e3..1e6, mixture) and step-number sequence (constant 1, constant k, +1 per step, jumping; k in 2..9 or, in every sixth case, 100 / 1000 / 100000); slots are updated in a random interleaving for 1..400 steps (long: 2000). After EVERY update the slot's values are compared with the documented equations evaluated per element in f64 (tolerance 1e-4 x distance travelled + 1e-7 + 8 x drift of the same equations evaluated in f32), must be finite, and the three rank-probe slots must agree. Distinct = distinct (optimizer configuration, layout) descriptors; sentinel zeros for hyper-parameters are not generated."
     }
     fn assumptions(&self) -> Vec<&'static str> {
         vec![
@@ -313,7 +313,11 @@ impl Monitor for C03 {
             state.push(per_layer);
         }
         // rank probe: one extra layer with three filters holding the same numbers in three ranks
-        let n = *rng.pick(&[4usize, 6, 8, 12]);
+        // every fourth block of cases: a large probe (matrix with 33..129 rows: row-blocked or
+        // parallel update loops have a remainder there)
+        let big_probe = (idx / 40) % 4 == 3;
+        let (big_r, big_c) = (*rng.pick(&[33usize, 35, 47, 65, 100, 129]), rng.range(1, 3));
+        let n = if big_probe { big_r * big_c } else { *rng.pick(&[4usize, 6, 8, 12]) };
         let w0: Vec<f32> = (0..n).map(|_| rng.f32_in(-2.0, 2.0)).collect();
         let base: Vec<f32> = (0..n).map(|_| rng.f32_in(-3.0, 3.0)).collect();
         let fam = rng.range(0, 6);
@@ -321,7 +325,15 @@ impl Monitor for C03 {
         let first_probe = slots.len();
         let mut probe_layer = Vec::new();
         for r in 1..=3usize {
-            let dims = dims_of(&mut rng, r, Some(n));
+            let dims = if big_probe {
+                match r {
+                    1 => vec![n],
+                    2 => vec![big_r, big_c],
+                    _ => vec![big_r, 1, big_c],
+                }
+            } else {
+                dims_of(&mut rng, r, Some(n))
+            };
             probe_layer.push(vec![mk(&dims, &vec![0.0; n])]);
             slots.push(Slot {
                 layer: layers,
@@ -341,6 +353,9 @@ impl Monitor for C03 {
         let mut out = Out::new(desc.clone());
         out.cover("optimizer_flags", format!("{}/{}", opt.name(), flags));
         out.cover("step_counts", steps.to_string());
+        if big_probe {
+            out.count("cases_with_a_large_rank_probe", 1);
+        }
         let mut o = opt.build();
         // every fourth case: a second optimizer instance of the same kind (other hyper-parameters
         // by the same generator) is updated on the same slots in between - instances share nothing
